@@ -72,7 +72,9 @@ func (a *Application) registerTranslatorRoutes() {
 		// Translators without PathProvider must be registered manually
 		if pathProvider, ok := trans.(translator.PathProvider); ok {
 			path := pathProvider.GetAPIPath()
-			handler := a.translationHandler(trans)
+			// Translated requests are proxied to backends like any other, so they pass the same
+			// admission checks (rate and size limits) as the proxy routes.
+			handler := http.HandlerFunc(a.securityAdapters.enforce(a.translationHandler(trans)).ServeHTTP)
 
 			a.routeRegistry.RegisterWithMethod(
 				path,
